@@ -68,10 +68,18 @@ type vfQsRun struct {
 	dead    bool
 	ticks   int
 	evil    bool // the scripted peer may break limits / final sizes from now on
-	frames  int // stream-related frames seen in the last settle
+	late    bool // streams may be ended (close, reset, stop) from now on
+	frames  int  // stream-related frames seen in the last settle
 }
 
 func (r *vfQsRun) emit(ev map[string]any) { r.env.Emit(r.t, ev) }
+
+// flush keeps the recorded prefix on disk: a panic on the conn's goroutine ends the process.
+func (r *vfQsRun) flush() {
+	if r.env.trace != nil {
+		r.env.trace.Flush()
+	}
+}
 
 func vfQsPat(k int, off int64) byte  { return byte((int(off%251)*7 + k*13) % 251) }
 func vfQsPPat(k int, off int64) byte { return byte((int(off%251)*11 + k*17 + 3) % 251) }
@@ -171,6 +179,7 @@ func (r *vfQsRun) settle(first map[string]any) {
 	code := ""
 	cc := "ok"
 	r.frames = 0
+	r.flush()
 	for i := 0; i < 400 && code == ""; i++ {
 		synctest.Wait()
 		code = r.drain(&evs)
@@ -503,7 +512,7 @@ func (r *vfQsRun) step() bool {
 	canW := func(st *vfQsStream) bool { return st.s != nil && st.canSend && st.call == nil }
 	canR := func(st *vfQsStream) bool { return st.s != nil && st.canRecv }
 	switch x := rnd.Intn(100); {
-	case x < 20: // Write
+	case x < 22: // Write
 		st := r.pick(func(st *vfQsStream) bool { return canW(st) && (!st.closedW || rnd.Intn(8) == 0) })
 		if st == nil {
 			return false
@@ -513,7 +522,7 @@ func (r *vfQsRun) step() bool {
 			lim = 6 * r.obuf // a blocked Write needs one round trip per buffer
 		}
 		r.write(st, r.size(lim))
-	case x < 28: // Flush
+	case x < 30: // Flush
 		st := r.pick(canW)
 		if st == nil {
 			return false
@@ -521,7 +530,7 @@ func (r *vfQsRun) step() bool {
 		err := st.s.Flush()
 		r.emit(map[string]any{"e": "a_flush", "s": st.k, "ok": err == nil})
 		r.settle(nil)
-	case x < 31: // CloseWrite
+	case x < 32 && r.late: // CloseWrite
 		st := r.pick(func(st *vfQsStream) bool { return canW(st) && !st.closedW })
 		if st == nil {
 			return false
@@ -530,13 +539,13 @@ func (r *vfQsRun) step() bool {
 		r.emit(map[string]any{"e": "a_cw", "s": st.k})
 		st.s.CloseWrite()
 		r.settle(nil)
-	case x < 35: // Close
+	case x < 35 && r.late: // Close
 		st := r.pick(func(st *vfQsStream) bool { return st.s != nil && st.call == nil })
 		if st == nil {
 			return false
 		}
 		r.closeStream(st)
-	case x < 38: // Reset
+	case x < 37 && r.late: // Reset
 		st := r.pick(canW)
 		if st == nil {
 			return false
@@ -547,11 +556,14 @@ func (r *vfQsRun) step() bool {
 		r.settle(nil)
 	case x < 50: // Read
 		st := r.pick(canR)
-		if st == nil {
+		if st == nil || r.gone(st) {
+			// Reading from a stream the conn has already dropped can panic the conn's loop on
+			// the pinned tree (F14); that scenario runs in its own process, see
+			// TestVerifQuicStreamLateRead.
 			return false
 		}
 		r.read(st, 1+r.size(5000))
-	case x < 53: // CloseRead
+	case x < 52 && r.late: // CloseRead
 		st := r.pick(func(st *vfQsStream) bool { return canR(st) && !st.closedR })
 		if st == nil {
 			return false
@@ -560,7 +572,7 @@ func (r *vfQsRun) step() bool {
 		r.emit(map[string]any{"e": "a_cr", "s": st.k})
 		st.s.CloseRead()
 		r.settle(nil)
-	case x < 55: // cancel a blocked call
+	case x < 54: // cancel a blocked call
 		var bl []*vfQsCall
 		for _, c := range r.calls {
 			if !c.done {
@@ -572,12 +584,12 @@ func (r *vfQsRun) step() bool {
 		}
 		bl[rnd.Intn(len(bl))].cancel()
 		r.settle(nil)
-	case x < 70: // peer STREAM
+	case x < 72: // peer STREAM
 		st := r.pick(func(st *vfQsStream) bool { return st.canRecv })
 		if st == nil {
 			return false
 		}
-		evil := r.evil && rnd.Intn(100) < 12 // frames that break a limit or a final size
+		evil := r.evil && rnd.Intn(100) < 8 // frames that break a limit or a final size
 		connRoom := max(r.advMax-r.peerUsed(), 0)
 		room := max(min(st.advWin-st.pHi, connRoom), 0)
 		n := r.size(1000)
@@ -658,7 +670,7 @@ func (r *vfQsRun) step() bool {
 			return false
 		}
 		r.pStream(st, off, n, fin)
-	case x < 73: // peer RESET_STREAM
+	case x < 74 && r.late: // peer RESET_STREAM
 		st := r.pick(func(st *vfQsStream) bool { return st.canRecv })
 		if st == nil {
 			return false
@@ -671,7 +683,7 @@ func (r *vfQsRun) step() bool {
 		} else if rnd.Intn(3) == 0 {
 			final = st.pHi + int64(rnd.Intn(int(min(room, 3000))+1))
 		}
-		if r.evil && rnd.Intn(100) < 20 {
+		if r.evil && rnd.Intn(100) < 8 {
 			switch y := rnd.Intn(100); {
 			case y < 35 && st.pHi > 0:
 				final = int64(rnd.Intn(int(st.pHi)))
@@ -687,7 +699,7 @@ func (r *vfQsRun) step() bool {
 			return false
 		}
 		r.pReset(st, final, uint64(1+rnd.Intn(5)))
-	case x < 75: // peer STOP_SENDING
+	case x < 75 && r.late: // peer STOP_SENDING
 		st := r.pick(func(st *vfQsStream) bool { return st.canSend && (st.kind == "rb" || st.s != nil) })
 		if st == nil {
 			return false
@@ -803,7 +815,7 @@ func (r *vfQsRun) final() {
 		if r.dead {
 			return
 		}
-		if st.s == nil || !st.canRecv {
+		if st.s == nil || !st.canRecv || r.gone(st) {
 			continue
 		}
 		for i := 0; i < 200 && !r.dead; i++ {
@@ -822,6 +834,13 @@ func (r *vfQsRun) final() {
 		}
 	}
 	r.emit(map[string]any{"e": "final", "blocked": blocked})
+}
+
+type vfQsSetup struct {
+	side              connSide
+	irb, icb, obuf    int64 // Config buffer sizes (0: default)
+	pmd, pbl, pbr, pu int64 // the peer's transport parameters
+	kinds             []string
 }
 
 func vfQsTrace(t *testing.T, env *vfEnv, trace int, rnd *rand.Rand, nops int) {
@@ -845,11 +864,110 @@ func vfQsTrace(t *testing.T, env *vfEnv, trace int, rnd *rand.Rand, nops int) {
 	if rnd.Intn(2) == 0 {
 		pmd = max(pmd, pbl, pbr, pu)
 	}
+	nstreams := 1 + rnd.Intn(4)
+	var klist []string
+	for k := 1; k <= nstreams; k++ {
+		klist = append(klist, []string{"lb", "lu", "rb", "ru"}[rnd.Intn(4)])
+	}
+	r := vfQsStart(t, env, trace, rnd, vfQsSetup{side, irb, icb, obuf, pmd, pbl, pbr, pu, klist})
+	autoAck := []int{100, 100, 70, 30, 0}[rnd.Intn(5)]
+	evilTrace := rnd.Intn(100) < 45
+	for i := 0; i < nops && !r.dead; i++ {
+		r.evil = evilTrace && i >= nops/2
+		r.late = i >= nops/4 || rnd.Intn(4) == 0
+		for try := 0; try < 6 && !r.step(); try++ {
+		}
+		if !r.dead && rnd.Intn(100) < autoAck {
+			r.pAck(r.unackedList())
+		}
+	}
+	r.finish()
+	if evilTrace && !r.dead {
+		r.boundaryFrame()
+	}
+}
+
+// boundaryFrame ends a script with one peer frame that breaks exactly one rule by one byte
+// (or, failing that, with one more legal frame): limit + 1, final size +- 1.
+func (r *vfQsRun) boundaryFrame() {
+	rnd := r.rnd
+	st := r.pick(func(st *vfQsStream) bool { return st.canRecv && !r.gone(st) })
+	if st == nil {
+		return
+	}
+	connRoom := max(r.advMax-r.peerUsed(), 0)
+	one := func(off int64, n int, fin bool) {
+		if off >= 0 && n >= 0 && n <= 1000 && off+int64(n) < vfQsBig {
+			r.pStream(st, off, n, fin)
+		}
+	}
+	for try := 0; try < 8; try++ {
+		switch rnd.Intn(8) {
+		case 0: // one byte beyond the stream limit
+			n := 1 + rnd.Intn(40)
+			if off := st.advWin + 1 - int64(n); off >= st.pHi || off >= 0 && rnd.Intn(2) == 0 {
+				one(max(off, 0), int(st.advWin+1-max(off, 0)), false)
+				return
+			}
+		case 1: // one byte beyond the connection limit
+			if connRoom < 999 && st.pHi+connRoom+1 <= st.advWin && st.pFin < 0 {
+				one(st.pHi, int(connRoom)+1, false)
+				return
+			}
+		case 2: // one byte beyond the known final size
+			if st.pFin >= 0 {
+				off := st.pFin - int64(rnd.Intn(int(min(st.pFin, 30))+1))
+				one(off, int(st.pFin-off)+1, false)
+				return
+			}
+		case 3: // the final size changes by one
+			if st.pFin > 0 {
+				one(st.pFin-1, 0, true)
+				return
+			}
+		case 4: // a final size one below the data already sent
+			if st.pFin < 0 && st.pHi > 0 {
+				one(st.pHi-1, 0, true)
+				return
+			}
+		case 5: // RESET_STREAM with another final size
+			if st.pFin > 0 {
+				r.pReset(st, st.pFin-1, 7)
+				return
+			}
+		case 6: // RESET_STREAM with a final size below the data sent
+			if st.pFin < 0 && st.pHi > 0 {
+				r.pReset(st, st.pHi-1, 7)
+				return
+			}
+		case 7: // RESET_STREAM with a final size beyond the stream limit
+			if st.pFin < 0 && st.advWin+1 < vfQsBig {
+				r.pReset(st, st.advWin+1, 7)
+				return
+			}
+		}
+	}
+}
+
+func (r *vfQsRun) finish() {
+	if !r.dead {
+		r.final()
+	}
+	for _, c := range r.calls {
+		c.cancel()
+	}
+	synctest.Wait()
+}
+
+// vfQsStart creates the conn and its streams, writes the trace header and settles once.
+func vfQsStart(t *testing.T, env *vfEnv, trace int, rnd *rand.Rand, cfg vfQsSetup) *vfQsRun {
+	side := cfg.side
+	pmd, pbl, pbr, pu := cfg.pmd, cfg.pbl, cfg.pbr, cfg.pu
 	tc := newTestConn(t, side,
 		func(c *Config) {
-			c.MaxStreamReadBufferSize = irb
-			c.MaxStreamWriteBufferSize = obuf
-			c.MaxConnReadBufferSize = icb
+			c.MaxStreamReadBufferSize = cfg.irb
+			c.MaxStreamWriteBufferSize = cfg.obuf
+			c.MaxConnReadBufferSize = cfg.icb
 		},
 		func(p *transportParameters) {
 			p.initialMaxStreamsBidi = 100
@@ -865,12 +983,16 @@ func vfQsTrace(t *testing.T, env *vfEnv, trace int, rnd *rand.Rand, nops int) {
 		unacked: map[packetNumber]bool{}, grant: pmd, obuf: tc.conn.config.maxStreamWriteBufferSize()}
 	sp := tc.sentTransportParameters
 	r.advMax = sp.initialMaxData
-	nstreams := 1 + rnd.Intn(4)
 	kinds := []string{"lb", "lu", "rb", "ru"}
 	var count [4]int64
 	var klist []string
-	for k := 1; k <= nstreams; k++ {
-		ki := rnd.Intn(4)
+	for k := 1; k <= len(cfg.kinds); k++ {
+		ki := 0
+		for i, x := range kinds {
+			if x == cfg.kinds[k-1] {
+				ki = i
+			}
+		}
 		kind := kinds[ki]
 		st := &vfQsStream{k: k, kind: kind, pFin: -1}
 		styp := bidiStream
@@ -922,23 +1044,7 @@ func vfQsTrace(t *testing.T, env *vfEnv, trace int, rnd *rand.Rand, nops int) {
 	}
 	r.unacked = map[packetNumber]bool{}
 	r.settle(nil)
-	autoAck := []int{100, 100, 70, 30, 0}[rnd.Intn(5)]
-	evilTrace := rnd.Intn(100) < 45
-	for i := 0; i < nops && !r.dead; i++ {
-		r.evil = evilTrace && i >= nops/2
-		for try := 0; try < 6 && !r.step(); try++ {
-		}
-		if !r.dead && rnd.Intn(100) < autoAck {
-			r.pAck(r.unackedList())
-		}
-	}
-	if !r.dead {
-		r.final()
-	}
-	for _, c := range r.calls {
-		c.cancel()
-	}
-	synctest.Wait()
+	return r
 }
 
 func TestVerifQuicStream(t *testing.T) {
@@ -963,6 +1069,64 @@ func TestVerifQuicStream(t *testing.T) {
 		if p := vfCatch(func() {
 			synctest.Test(t, func(t *testing.T) {
 				vfQsTrace(t, env, trace, rnd, nops)
+			})
+		}); p != "" {
+			env.Emit(trace, map[string]any{"e": "panic", "msg": p})
+		}
+	}
+	env.Finish(nil)
+}
+
+// TestVerifQuicStreamLateRead runs, in its own process, the scripted scenarios in which the
+// application keeps reading from a stream after it has ended (Close / RESET_STREAM received)
+// while bytes of the lock-free read buffer were still unconsumed.  On the pinned tree the first
+// one panics the conn's loop (F14: "BUG: queueMeta stream is not streamQueueMeta"), which is why
+// the seeded scripts above never read from a stream the conn has dropped.
+func TestVerifQuicStreamLateRead(t *testing.T) {
+	env := vfLoad(t)
+	if env == nil {
+		return
+	}
+	scripts := []func(r *vfQsRun){
+		// FIN known, a gap outstanding, Close, leftover bytes read, one more Read
+		func(r *vfQsRun) {
+			st := r.streams[0]
+			r.pStream(st, 0, 50, false)
+			r.pStream(st, 60, 10, true)
+			r.read(st, 10)
+			r.closeStream(st)
+			r.pAck(r.unackedList())
+			for i := 0; i < 6 && !r.dead; i++ {
+				r.read(st, 10)
+			}
+		},
+		// RESET_STREAM, leftover bytes read, one more Read, the same RESET_STREAM again
+		func(r *vfQsRun) {
+			st := r.streams[0]
+			r.pStream(st, 0, 50, false)
+			r.read(st, 10)
+			r.pReset(st, 50, 3)
+			for i := 0; i < 6 && !r.dead; i++ {
+				r.read(st, 10)
+			}
+			if !r.dead {
+				r.pReset(st, 50, 3)
+			}
+		},
+	}
+	which := env.Int("script", 0) // 0: all
+	for k, script := range scripts {
+		trace := k + 1
+		if !env.Only(trace) || (which != 0 && which != trace) {
+			continue
+		}
+		if p := vfCatch(func() {
+			synctest.Test(t, func(t *testing.T) {
+				r := vfQsStart(t, env, trace, env.Rand(int64(trace)),
+					vfQsSetup{serverSide, 65536, 65536, 65536, 1 << 20, 1 << 20, 1 << 20, 1 << 20, []string{"ru"}})
+				script(r)
+				r.flush()
+				r.finish()
 			})
 		}); p != "" {
 			env.Emit(trace, map[string]any{"e": "panic", "msg": p})
